@@ -224,3 +224,25 @@ Qed.
    processors waits, and finds recordable_ == nullptr afterwards *)
 Theorem no_lock_while_held s t t' : l_mu s = Some t' -> accept s (t, LLock) = None.
 Proof. intros H. unfold accept. destruct (l_pc s t); try reflexivity. rewrite H. reflexivity. Qed.
+
+(* ------------------------------------------------------------------ non-vacuity *)
+Definition ec : cfg oval := mk_cfg [PSimple; PSimple] true (bs "l", [], []) [].
+Definition es : start oval := mk_start (bs "op") 1 100 50 [] [].
+Definition late := SetAttr (bs "late", OSc TI32 2).
+(* thread 0 ends the span; thread 1's SetAttribute begins while End hands the span to the processors *)
+Definition tr_good : list (nat * lev) :=
+  [(0, LBeg (End 90)); (0, LLock); (0, LDeliver 0); (1, LBeg late); (0, LDeliver 1); (0, LUnlock); (0, LRet 0);
+   (1, LLock); (1, LUnlock); (1, LRet 0)]%nat.
+Definition tr_early := [(0, LBeg (End 90)); (0, LLock); (0, LDeliver 0); (1, LBeg late); (1, LLock)]%nat.
+Definition tr_seeded := [(0, LBeg (End 90)); (0, LLock); (0, LUnlock); (0, LDeliver 0); (1, LBeg late); (1, LLock); (1, LUnlock); (0, LDeliver 1)]%nat.
+
+(* accepted: the late SetAttribute can only take mu_ after End released it, and is then ignored - both processors were handed
+   the span without the attribute, and the lock order is End, SetAttribute *)
+Example late_setter_waits_and_is_ignored :
+  option_map (fun s => (map (map d_attrs) (l_got s), l_lin s)) (accept_all (linit ec es) tr_good) = Some ([[[]]; [[]]], [End 90; late]) /\
+  accept_all (linit ec es) tr_early = None.
+Proof. split; vm_compute; reflexivity. Qed.
+(* what the seeded change C04_e does - mu_ released before the processors are served, the late setter entering in between, so
+   that the second processor's copy would differ - is not a trace of the machine *)
+Example unlock_before_fanout_is_rejected : accept_all (linit ec es) tr_seeded = None.
+Proof. vm_compute; reflexivity. Qed.
